@@ -724,4 +724,14 @@ def build():
     world.trusted_notes.append('get_child_nodes and get_child_nodes_with_field enumerate the same child nodes (lkids / lkidsf, is_child_of)')
     world.trusted_notes.append("subtree_has_id is any predicate closed under 'the node's own id' and 'the ids of its children's subtrees' (closure axioms used in the only_subtree_ids_changed lemma); acyclic_ids is stated with it")
     world.trusted_notes.append("shrinks_* / extends_n / only_subtree_ids_changed / all_parent_ids_cleared enter function VCs only through consequences proved as quantified lemmas (z3) and instantiated at the VC's key terms")
+    pbP, pbF, pbI = z3.Const("P_pb", PM.z3()), z3.Const("F_pb", FM.z3()), z3.Const("I_pb", IM.z3())
+    pbn, pba, pbb, pby = z3.Const("n_pb", REF.z3()), z3.Const("a_pb", SC.z3()), z3.Const("b_pb", SC.z3()), z3.Const("y_pb", CPOS.z3())
+    pb = lambda q: points_back.t(pbP, pbF, pbI, pbn, q)
+
+    def pb_step(bank):
+        ih = z3.Implies(pb(z3.Concat(pba, pbb)), pb(pba))
+        whole = z3.Concat(pba, mk_snoc(pbb, pby))
+        bank.add(whole, ("snoc", z3.Concat(pba, pbb), pby))
+        return [ih], z3.Implies(pb(whole), pb(pba))
+    lem.append(Lemma("points_back-prefix", [("base", lambda bank: ([], z3.Implies(pb(z3.Concat(pba, z3.Empty(SC.z3()))), pb(pba)))), ("step", pb_step)], PB))
     return world, lib, reg, lem
